@@ -66,6 +66,7 @@ func cmdRun(args []string) {
 	maxConc := fs.Int("maxconc", 64, "concretisation cap")
 	full := fs.Bool("full", false, "print full result")
 	noMerge := fs.Bool("nomerge", false, "disable if-merging")
+	hashT := fs.Bool("hashtransparent", false, "model sha1 as identity")
 	fs.Parse(args)
 	prog, err := Load(LoadSpec{RepoDir: *repo, PkgDir: *pkg, HarnessSrcs: strings.Split(*harness, ",")})
 	if err != nil {
@@ -82,7 +83,7 @@ func cmdRun(args []string) {
 	}
 	cfg := &RunConfig{Entry: *entry, MaxSteps: *maxSteps, MaxPaths: *maxPaths, Workers: *workers, TimeoutS: *timeout,
 		SolverMs: *solverMs, Trace: *trace, SolverLog: *solverLog, MapOrderAll: *mapAll, MapOrderMax: 3, SchedAll: *schedAll,
-		Preempt: *preempt, Prefix: parsePrefix(*prefix), StopOnViolation: *stopv, AllowBlocked: *allowBlocked, MaxConcretize: *maxConc, NoMerge: *noMerge}
+		Preempt: *preempt, Prefix: parsePrefix(*prefix), StopOnViolation: *stopv, AllowBlocked: *allowBlocked, MaxConcretize: *maxConc, NoMerge: *noMerge, HashTransparent: *hashT}
 	if prog.entryFunc(*entry) == nil {
 		fmt.Println("no such entry function:", *entry)
 		os.Exit(3)
